@@ -404,6 +404,8 @@ impl<P: Prop> Exec<P> {
         if !self.isolate {
             return match run_caught::<P>(case) {
                 Ok(r) => Outcome::Pass(r),
+                // a failure of the harness's own plumbing (scratch file, child process) is a resource outcome, not a verdict
+                Err(f) if f.sig == "infra" => Outcome::Infra(f.msg),
                 Err(f) => Outcome::Fail(f),
             };
         }
@@ -423,6 +425,7 @@ impl<P: Prop> Exec<P> {
         match reply {
             Ok(l) => match serde_json::from_str::<Wire>(l.trim_end()) {
                 Ok(Wire::R(r)) => Outcome::Pass(r),
+                Ok(Wire::F(f)) if f.sig == "infra" => Outcome::Infra(f.msg),
                 Ok(Wire::F(f)) => Outcome::Fail(f),
                 Err(e) => {
                     self.worker = None;
